@@ -13,12 +13,12 @@ namespace Fips204.SrcTie.Shape
 open Fips204.Gen
 
 /-- the text of `try_sign_with_rng` is the one Impl.sign was modelled on -/
-theorem lib_try_sign_with_rng_text_unchanged : Shapes.lib_try_sign_with_rng = 987855323575767653 := rfl
+theorem lib_try_sign_with_rng_text_unchanged : Shapes.lib_try_sign_with_rng = 298899175878523003 := rfl
 
 /-- the text of `try_hash_sign_with_rng` is the one Impl.hashSign was modelled on -/
-theorem lib_try_hash_sign_with_rng_text_unchanged : Shapes.lib_try_hash_sign_with_rng = 1084803196505652845 := rfl
+theorem lib_try_hash_sign_with_rng_text_unchanged : Shapes.lib_try_hash_sign_with_rng = 225378858554146707 := rfl
 
 /-- the text of `internal_sign` is the one Impl.internalSign was modelled on -/
-theorem lib_internal_sign_text_unchanged : Shapes.lib_internal_sign = 252988597172183820 := rfl
+theorem lib_internal_sign_text_unchanged : Shapes.lib_internal_sign = 1054471056498608153 := rfl
 
 end Fips204.SrcTie.Shape
